@@ -347,8 +347,14 @@ pub fn prop(tier: Tier, seed: u64) -> Prop {
         ctx.nontrivial += 1;
     }).isolated());
 
+    // rayon leg ("for all thread counts"): lives in the real-rayon workspace
+    let t = tier.name();
+    if crate::profile_name() == "release" {
+        // (the engine is a release build of its own; running it from the debug-profile pass too would repeat it)
+        p.extra.push(Box::new(move |_| crate::props::c08::run_engine_for("C05", crate::props::c08::RAYON_REL, &["c05", t], &[], "destinations under real rayon")));
+    }
     p.rule = "resize: every (sw,sh,dw,dh) in (0..S)^4 (zero dimensions included) x 10 algorithms (Nearest, Convolution, Interpolation, SuperSampling with multiplicity 1,2,3,255) x 4 crop variants (none, integer, fractional, invalid) x 13 pixel types x destination kinds {owned, Vec with spare capacity, exact slice, slice with 1 / w / 3w+2 spare pixels, mutable cropped view at 8 placements/margins, typed slice / buffer / cropped / nested-cropped views} x sentinels {0x5A,0xA5}; alpha multiply/divide (two-image and in place), colour mapping forward/backward (two-image and in place) and component conversion on sizes (0..S+1)^2. Oracle: bytes outside the rectangle keep the sentinel, the rectangle equals the exact-buffer result under both sentinels, the source is unchanged, an error or a zero dimension leaves the destination untouched".into();
     p.bounds = json!({"S": s});
-    p.assumptions = vec!["thread counts are C08's business".into(), "SuperSampling multiplicity 0 is outside the statement (m >= 1)".into()];
+    p.assumptions = vec!["thread counts: the rayon leg runs the band bodies under the real rayon (pool sizes 2..7 quick, 2..32 thorough) on plain, trait-default and cropped destinations under two previous contents and compares the whole parent buffer with the pool of one; the OS schedule is uncontrolled there (schedule independence is C08's loom exploration)".into(), "SuperSampling multiplicity 0 is outside the statement (m >= 1)".into()];
     p
 }
